@@ -69,6 +69,25 @@ def patch_pool():
     multiprocessing._verif_pool = True
 
 
+def fp_mode(mode):
+    """floating-point error handling / warnings in force while the code under test runs; everything is
+    restored on exit (also when the call raises)"""
+    import contextlib, warnings
+    st = contextlib.ExitStack()
+    if mode == "errstate":
+        st.enter_context(np.errstate(all="raise"))
+    elif mode == "warnerr":
+        st.enter_context(np.errstate(all="warn"))
+        st.enter_context(warnings.catch_warnings())
+        warnings.simplefilter("error")
+    else:
+        st.enter_context(np.errstate(all="ignore"))
+    return st
+
+
+MODES = ("errstate", "warnerr")
+
+
 # =====================================================================================
 # part A : the bisection
 def ess_at(ll, old, b):
@@ -189,6 +208,13 @@ def gen_bisect_cases(ctx):
             prev = rng.randint(n, 2 * n)                            # target above N: unreachable
         lev = rng.choice([0.0, 0.0, rng.gauss(0, 10), -1e6 * rng.random()])
         cases.append({"stream": stream, "kind": kind, "old": old, "ll": v, "prev": prev, "lev": lev})
+    # integer-dtype log-likelihood vectors (ties by construction)
+    for _ in range(ctx.scale(12, 300)):
+        n = rng.choice([51, 60, 100, 160])
+        sc = rng.choice([1, 3, 20, 1000])
+        v = [float(-rng.randint(0, 12) * sc) for _ in range(n)]
+        cases.append({"stream": "bisect-exact", "kind": "int-dtype", "dtype": "int", "old": rng.choice([0.0, 0.25, 0.5]), "ll": v,
+                      "prev": rng.choice([n, rng.randint(40, n)]), "lev": 0.0})
     # fixed witnesses / corner cases always present
     cases.append({"stream": "bisect-exact", "kind": "flat", "old": 0.0, "ll": [0.0] * 60, "prev": 60, "lev": 0.0})
     cases.append({"stream": "bisect-exact", "kind": "ninf-many", "old": 0.0,
@@ -201,9 +227,35 @@ def gen_bisect_cases(ctx):
     return cases
 
 
+def run_bisect_plain(c, mode=None):
+    """the call on a plain ndarray (int64 when the case says so) under a floating-point mode; also reports whether
+    the input was modified or is shared with the returned weights"""
+    T = _T()
+    ll = np.array(c["ll"], dtype=np.int64 if c.get("dtype") == "int" else float)
+    keep = ll.copy()
+    err0 = np.geterr()
+    try:
+        with fp_mode(mode):
+            b, lev, W, e = T.compute_beta_update_evidence(c["old"], ll, c["lev"], c["prev"])
+        res = ("ok", float(b), float(lev), np.array(W, dtype=float), e)
+        clean = np.array_equal(ll, keep) and not (isinstance(W, np.ndarray) and np.shares_memory(W, ll)) and np.geterr() == err0
+    except BaseException as ex:  # noqa
+        res = ("err", err_kind(ex), type(ex).__name__)
+        clean = np.array_equal(ll, keep) and np.geterr() == err0
+    return res, clean
+
+
+def same_bisect(a, b):
+    if a[0] != b[0]:
+        return False
+    if a[0] == "err":
+        return a[1] == b[1]
+    return a[1] == b[1] and (a[2] == b[2] or (math.isnan(a[2]) and math.isnan(b[2]))) and np.array_equal(a[3], b[3], equal_nan=True) and a[4] == b[4]
+
+
 def run_bisect_impl(c):
     T = _T()
-    ll = np.array(c["ll"], dtype=float).view(RecArr)
+    ll = np.array(c["ll"], dtype=np.int64 if c.get("dtype") == "int" else float).view(RecArr)
     RecArr.log = []
     try:
         with np.errstate(all="ignore"):
@@ -397,6 +449,7 @@ def part_bisect(ctx):
     for i, (c, im, mr) in enumerate(zip(cases, impls, mres)):
         key = ("b", c["old"], c["prev"], tuple(c["ll"][:8]), len(c["ll"]))
         nontriv = c["kind"] not in ("flat", "all-ninf", "old-ge-2")
+
         ctx.count(key, nontriv, c["stream"])
         ctx.bump("ll:" + c["kind"])
         if im[0] == "ok":
@@ -404,7 +457,7 @@ def part_bisect(ctx):
         else:
             ctx.bump("bisect:raises-" + im[1])
         cj = {"part": "bisect", "old": c["old"], "prev": c["prev"], "lev": c["lev"], "kind": c["kind"],
-              "ll": [repr(x) for x in c["ll"]]}
+              "ll": [repr(x) for x in c["ll"]], "dtype": c.get("dtype")}
         why = tie_bisect(ctx, c, im, mr, wreps.get(i, "missing")) if not (im[0] == "ok" and i not in wreps) else "non-finite exp values"
         if why is None:
             ctx.tie_ok()
@@ -412,6 +465,28 @@ def part_bisect(ctx):
             ctx.tie_bad(c["stream"], cj, _js_bis(im), {"model": " ".join(mr[0])[:200], "why": why})
         for feat, text in oracle_bisect(ctx, c, im):
             ctx.fail(feat, dict(cj, impl=_js_bis(im)), text)
+        # plain-ndarray call: same result as through the recording array, input untouched and not shared with the weights;
+        # under np.errstate(all='raise') / warnings-as-errors: the same result or an exception, never another value
+        if i % 4 == 0 or c.get("dtype"):
+            pl, clean = run_bisect_plain(c)
+            ctx.count(("bisect-plain", i), True, "bisect-plain")
+            if not same_bisect(im, pl):
+                ctx.fail({"call": "compute_beta_update_evidence", "symptom": "not-reproducible", "kind": c["kind"]}, cj,
+                         f"the same call on a plain ndarray gives {_js_bis(pl)} instead of {_js_bis(im)}")
+            if not clean:
+                ctx.fail({"call": "compute_beta_update_evidence", "symptom": "input-modified-or-shared", "kind": c["kind"]}, cj,
+                         "the log-likelihood input was modified, or the returned weights share its memory")
+            for mode in MODES:
+                pm, cleanm = run_bisect_plain(c, mode)
+                ctx.count(("bisect-mode", mode, i), True, "bisect-" + mode)
+                if pm[0] == "err":
+                    ctx.bump(f"bisect-{mode}:raises-" + pm[2])
+                elif not same_bisect(im, pm):
+                    ctx.fail({"call": "compute_beta_update_evidence", "symptom": "differs-under-" + mode, "kind": c["kind"]}, dict(cj, mode=mode),
+                             f"under {mode} the same call silently returns {_js_bis(pm)} instead of {_js_bis(im)}")
+                if not cleanm:
+                    ctx.fail({"call": "compute_beta_update_evidence", "symptom": "input-modified-or-shared", "kind": c["kind"], "mode": mode},
+                             dict(cj, mode=mode), "input modified / numpy error state not restored")
         if len(ctx.samples) < 2 and c["kind"] == "normal":
             ctx.sample({"part": "bisect", "N": len(c["ll"]), "old": c["old"], "prev": c["prev"],
                         "impl_beta": im[1] if im[0] == "ok" else im, "model": " ".join(mr[0])[:120], "oracle_queries": mr[1]})
@@ -759,6 +834,17 @@ def gen_mh_cases(ctx):
                       "n": rng.choice([0, 1, 2, 3, 5, 5, 8]) if k >= NWIT else 6, "ship": ship, "acc0": rng.choice([0, 0, 3, 17]),
                       "seed": rng.randrange(2 ** 31), "pn": rng.randrange(100),
                       "stale": rng.random() < 0.05 and k >= NWIT})
+    # proposals that improve the tempered log-posterior by more than log(DBL_MAX) ~ 709.8 (ratio overflows)
+    for k in range(ctx.scale(8, 80)):
+        dim = rng.choice([1, 1, 2])
+        pri = [gen_prior(rng, rng.choice(["U", "DU", "T", "SU"])) for _ in range(dim)]
+        cen = [support(p)[0] + rng.uniform(0.4, 0.6) * width(p) for p in pri]
+        lld = {"kind": "quad", "c": cen, "w": [width(p) * rng.choice([0.01, 0.003]) for p in pri], "s": 1.0}
+        cur = [support(p)[0] + rng.uniform(0.0, 0.08) * width(p) for p in pri]
+        sc = [width(p) * 0.3 for p in pri]
+        cases.append({"pri": pri, "ll": lld, "cur": cur, "Em": np.diag([v * v for v in sc]).tolist(), "beta": rng.choice([1.0, 0.9, 1.0]),
+                      "n": 6, "ship": None, "acc0": 0, "seed": rng.randrange(2 ** 31), "pn": rng.randrange(100), "stale": False,
+                      "bigjump": True})
     return cases
 
 
@@ -783,14 +869,17 @@ def run_mh_case(c):
     Em = np.array(c["Em"], dtype=float)
     np.random.seed(c["seed"])
     st0 = np.random.get_state()
+    cur_in, Em_in = cur.copy(), Em.copy()
+    err0 = np.geterr()
     try:
-        with np.errstate(all="ignore"):
-            r = T.MCMC_MH(c["pn"], Em, c["n"], cur.copy(), lik0, post0, c["beta"], c["acc0"], pars, LL)
-        res = ("ok", np.asarray(r[0], dtype=float), float(r[1]), float(r[2]), int(r[3]))
+        with fp_mode(c.get("mode")):
+            r = T.MCMC_MH(c["pn"], Em_in, c["n"], cur_in, lik0, post0, c["beta"], c["acc0"], pars, LL)
+        res = ("ok", np.array(r[0], dtype=float), float(r[1]), float(r[2]), int(r[3]))
     except BaseException as ex:  # noqa
-        res = ("err", err_kind(ex))
+        res = ("err", err_kind(ex), type(ex).__name__)
     st1 = np.random.get_state()
-    return {"res": res, "log": log, "lik0": lik0, "post0": post0, "st0": st0, "st1": st1, "raw": raw, "Em": Em, "cur0": cur}
+    inputs_ok = np.array_equal(cur_in, cur) and np.array_equal(Em_in, Em) and np.geterr() == err0
+    return {"inputs_ok": inputs_ok, "res": res, "log": log, "lik0": lik0, "post0": post0, "st0": st0, "st1": st1, "raw": raw, "Em": Em, "cur0": cur}
 
 
 def mh_request(c, o, steps, lus):
@@ -947,6 +1036,30 @@ def part_mh(ctx):
         if not c["stale"] and math.isfinite(o["post0"]):
             for feat, text in oracle_mh(c, o, deltas, us, after_mvn):
                 ctx.fail(feat, dict(cj, impl=_js_mh(o["res"])), text)
+        if o["res"][0] == "ok" and not o["inputs_ok"]:
+            ctx.fail({"call": "MCMC_MH", "symptom": "inputs-modified"}, cj, "MCMC_MH modified its input state / covariance / numpy error state")
+        # global state: the same call under np.errstate(all='raise') / warnings-as-errors gives the same result or raises
+        if o["res"][0] == "ok" and not c["stale"] and math.isfinite(o["post0"]) and (c.get("bigjump") or c["seed"] % 3 == 0):
+            for mode in MODES:
+                c2 = dict(c, mode=mode)
+                o2 = run_mh_case(c2)
+                ctx.count(("mh-mode", mode, c["seed"]), c["n"] > 0, "mh-" + mode)
+                if o2["res"][0] == "err":
+                    ctx.bump(f"mh-{mode}:raises-" + o2["res"][2])
+                    continue
+                a, b = o["res"], o2["res"]
+                same = np.array_equal(a[1], b[1]) and (a[2] == b[2] or (math.isnan(a[2]) and math.isnan(b[2]))) \
+                    and (a[3] == b[3] or (math.isnan(a[3]) and math.isnan(b[3]))) and a[4] == b[4] and same_state(o["st1"], o2["st1"])
+                if not same:
+                    ctx.fail({"call": "MCMC_MH", "symptom": "differs-under-" + mode, "bigjump": bool(c.get("bigjump"))},
+                             dict(cj, mode=mode, impl=_js_mh(a), impl_mode=_js_mh(b)),
+                             f"under {'np.errstate(all=raise)' if mode == 'errstate' else 'warnings turned into errors'} the same call (same seed) "
+                             f"silently returns {b[1].tolist()} after {b[4] - c['acc0']} accepts instead of {a[1].tolist()} after {a[4] - c['acc0']}: "
+                             "a move is not accepted with probability min(1, ratio)")
+                if not o2["inputs_ok"]:
+                    ctx.fail({"call": "MCMC_MH", "symptom": "inputs-modified", "mode": mode}, dict(cj, mode=mode), "inputs or numpy error state changed")
+                for feat, text in oracle_mh(c2, o2, deltas, us, after_mvn):
+                    ctx.fail(dict(feat, mode=mode), dict(cj, mode=mode, impl=_js_mh(b)), f"[{mode}] " + text)
         if len(ctx.samples) < 4 and c["n"] >= 3 and o["res"][0] == "ok" and o["res"][4] > c["acc0"]:
             ctx.sample({"part": "mh", "priors": c["pri"], "beta": c["beta"], "n": c["n"], "impl": _js_mh(o["res"]), "model": rep[:160]})
 
@@ -1019,7 +1132,7 @@ def run_tmcmc_case(c):
                 raise StageLimit(f"exponent 1 not reached after {STAGE_CAP} stages")
             st0 = np.random.get_state()
             l0 = len(log)
-            with np.errstate(all="ignore"):
+            with fp_mode(c.get("mode")):
                 r = func(*args)
             calls.append({"args": args, "ret": r, "st0": st0, "st1": np.random.get_state(), "log": log[l0:]})
             return r
@@ -1031,7 +1144,7 @@ def run_tmcmc_case(c):
     np.random.seed(c["seed"])
     try:
         import io, contextlib
-        with contextlib.redirect_stdout(io.StringIO()), np.errstate(all="ignore"):
+        with contextlib.redirect_stdout(io.StringIO()), fp_mode(c.get("mode")):
             t = T.TMCMC(N=c["N"], parameters=pars, names=[f"p{i}" for i in range(len(pars))], log_likelihood=LL,
                         mutation_steps=c["steps"], status_file_name=status)
             trace = t.run()
@@ -1181,6 +1294,22 @@ def part_run(ctx):
             continue
         trace = o["res"][1]
         N, dim = c["N"], len(c["pri"])
+        if c is cases[0] or c is cases[-1]:
+            # global state: the same run (same seed) under np.errstate(all='raise') / warnings-as-errors: same trace or an exception
+            for mode in MODES:
+                om = run_tmcmc_case(dict(c, mode=mode))
+                ctx.count(("run-mode", mode, c["seed"]), True, "run-" + mode)
+                if om["res"][0] != "ok":
+                    ctx.bump(f"run-{mode}:raises-" + om["res"][1])
+                    continue
+                tm = om["res"][1]
+                if len(tm) != len(trace) or any(float(a.beta) != float(b.beta) or not np.array_equal(np.asarray(a.Sm), np.asarray(b.Sm))
+                                                for a, b in zip(tm, trace)):
+                    ctx.fail({"call": "TMCMC.run", "symptom": "differs-under-" + mode, "dim": dim}, dict(cj, mode=mode),
+                             f"under {mode} the same run (same seed) silently produces a different trace "
+                             f"({len(tm) - 1} stages, exponents {[float(a.beta) for a in tm][:6]}… instead of {len(trace) - 1} stages, {[float(a.beta) for a in trace][:6]}…)")
+                for feat, text in oracle_run(c, om):
+                    ctx.fail(dict(feat, mode=mode), dict(cj, mode=mode), f"[{mode}] " + text)
         calls = o["calls"]
         nst = len(trace) - 1
         ctx.bump("run-stages", nst)
